@@ -98,7 +98,7 @@ pub fn subs() -> Vec<Box<dyn Sub>> {
         rule: "valid headers from the independent encoder: 0..=12 tags of the 10 non-end kinds in random order/multiplicity, marker field bytes with in-range enumerated fields, information-request lists of 0..=32 entries, both architectures, with/without terminating end tag; enumerated: empty header, each kind alone / duplicated / every ordered pair with a repeated kind, request-list lengths {0,1,2,3,8,32}. Oracle: full transcript (4 header accessors, checksum verification, walk from offset 16 to length, typed fields of every item, 10 getters first-match/None) equals the reference model. Non-trivial = >=3 tags with a duplicated kind; distinct by region hash",
         profiles: Profiles::Both,
         quick: 40000,
-        thorough: 600000,
+        thorough: 3000000,
         strategy,
         enumerate: Some(enumerate),
         enum_exhaustive: false,
